@@ -179,6 +179,7 @@ def main(tier, seed, scale=1.0):
             ref[cid] = (o["st"], o.get("out") if o["st"] == "ok" else o.get("msg"))
     environment(chk, seed, exe, [(cid, text) for cid, text in feed if cid in ref], ref)
     offsets_and_comments(chk, seed)
+    printer_and_toolchain(chk, seed)
     chk.extra["processes"] = procs
     chk.extra["repeats_per_process"] = repeat
     if tier == "thorough":
@@ -356,6 +357,71 @@ def offsets_and_comments(chk, seed):
             return
     chk.count("offset-copies-equal", copies - 1)
     chk.held("offsets:" + digest(src), True, 0)
+
+
+PRINTER_INPUTS = [
+    # literal defaults on types whose printed spelling differs between rustc's token printer and proc-macro2's fallback
+    # (`[u8; 4]` vs `[u8 ; 4]`, `&'static str` vs `& 'static str`): whether the literal is converted is decided by the TYPE
+    "#[derive(Educe)]\n#[educe(Default)]\npub struct A {\n    #[educe(Default = b\"abcd\")]\n    pub tag: &'static [u8; 4],\n    #[educe(Default = \"x\")]\n    pub s: &'static str,\n"
+    "    #[educe(Default = 7)]\n    pub n: u64,\n    #[educe(Default = 1.5)]\n    pub f: f32,\n    #[educe(Default = 'c')]\n    pub c: char,\n    #[educe(Default = \"y\")]\n    pub o: ::std::string::String,\n}\n",
+    "#[derive(Educe)]\n#[educe(Default)]\npub enum B {\n    #[educe(Default)]\n    V(#[educe(Default = b\"ab\")] &'static [u8; 2], #[educe(Default = 3)] i128, #[educe(Default = 2)] ::core::option::Option<u8>),\n    W,\n}\n",
+    "#[derive(Educe)]\n#[educe(Default)]\npub union C {\n    #[educe(Default = b\"abc\")]\n    pub a: &'static [u8; 3],\n    pub b: usize,\n}\n",
+]
+
+
+def printer_and_toolchain(chk, seed):
+    """(1) the same request through rustc (real entry point, rustc's token printer) and in-process (proc-macro2's fallback
+    printer) converts the same literals: the number of `Into::into` calls per item agrees; (2) the same crate under the
+    stable and the nightly toolchain (where `Span` has more capabilities) draws the same diagnostics: none."""
+    from .. import unpretty as UP
+    import re as _re
+    src = "#![allow(dead_code, unused)]\nuse educe::Educe;\n" + "".join("pub mod p%d {\nuse super::*;\n%s}\n" % (i, t) for i, t in enumerate(PRINTER_INPUTS))
+    try:
+        text = UP.expand("c16p", src)
+    except Exception as e:
+        chk.inconc("printer-unpretty-failed")
+        log("C16: %s" % e)
+        text = None
+    if text is not None:
+        mods = UP.modules(text)
+        res = B.run_inproc([("pr%d" % i, t) for i, t in enumerate(PRINTER_INPUTS)], items=False)
+        for i, t in enumerate(PRINTER_INPUTS):
+            r = res.get("pr%d" % i) or {}
+            body = mods.get("p%d" % i)
+            if r.get("st") != "ok" or body is None:
+                chk.inconc("printer-not-expanded")
+                continue
+            a = len(_re.findall(r"Into\s*::\s*into", body))
+            b = len(_re.findall(r"Into\s*::\s*into", r.get("out", "")))
+            chk.evaluations += 1
+            if a != b:
+                chk.violation("nondeterministic|token-printer", "through rustc the expansion converts %d literals with Into::into, in-process %d: a decision "
+                              "is taken on the PRINTED form of a type\n%s" % (a, b, t), {"input.rs": t, "rustc.txt": body, "inproc.txt": r.get("out", "")})
+            else:
+                chk.held("printer:%d" % i, True, 1)
+                chk.count("printer-parity")
+    # stable vs nightly
+    crate = ("#![deny(warnings)]\n#![allow(dead_code)]\nuse educe::Educe;\n"
+             "#[derive(Educe)]\n#[educe(Default(new), Debug, Clone, PartialEq, Hash, PartialOrd)]\npub struct A {\n    #[deprecated]\n    #[educe(Default = 5)]\n    pub x: u8,\n    #[deprecated]\n    pub y: u8,\n}\n"
+             "#[derive(Educe)]\n#[educe(Default, Debug, Clone)]\npub enum B {\n    #[educe(Default)]\n    V {\n        #[deprecated]\n        #[educe(Default = 5)]\n        x: u8,\n    },\n    W,\n}\n"
+             "#[derive(Educe)]\n#[educe(Default, Clone, Copy)]\npub union C {\n    #[deprecated]\n    #[educe(Default = 5)]\n    pub x: u8,\n    pub y: u16,\n}\nfn main() {}\n")
+    B.setup_d1("c16t", {"x": crate}, rt=False)
+    d = B.d1_dir("c16t")
+    verdicts = {}
+    for tc in ("stable", "nightly"):
+        cmd = ["cargo"] + (["+nightly"] if tc == "nightly" else []) + ["check", "--offline", "--bin", "x", "--message-format=short"]
+        rc, out, err, wall = run(cmd, cwd=d, env=base_env({"CARGO_TARGET_DIR": os.path.join(WORK, "tgt", "c16t-" + tc)}), timeout=900)
+        verdicts[tc] = (rc == 0, "\n".join(l for l in err.splitlines() if "error" in l or "warning" in l)[:600])
+    chk.evaluations += 1
+    if verdicts["stable"][0] and not verdicts["nightly"][0]:
+        chk.violation("nondeterministic|toolchain", "the same crate is clean under the stable toolchain and draws diagnostics under nightly: the expansion "
+                      "depends on what `Span` can do there\n%s\n%s" % (verdicts["nightly"][1], crate), {"crate.rs": crate})
+    elif not verdicts["stable"][0]:
+        chk.inconc("toolchain-probe-does-not-build")
+        log("C16: toolchain probe: %s" % verdicts["stable"][1])
+    else:
+        chk.held("toolchains", True, 1)
+        chk.count("toolchain-parity")
 
 
 def unpretty_pairs(chk, seed, cases, n=24):
